@@ -57,6 +57,11 @@ pub struct ARunSpec {
   pub other: String, // fixture playing document "O" (same kind as the target)
   #[serde(default)]
   pub fmode: Value, // null: every concrete variant | {mode:"der_sweep",from,to,xors} | {mode:"rand",n,seed}
+  // ---- dec with validity windows (grants with val = "window"): the reference instant the bounds are rendered
+  // against, seconds since the Unix epoch; 1 = the wall clock at the start of the run; 0 = not chosen yet (a case
+  // enumerated by TLC: `replay` runs it against the wall clock and against fixed dates)
+  #[serde(default)]
+  pub tref: i64,
 }
 
 pub const S1: &str = "CN=participant1_common_name,O=Example Organization";
@@ -92,6 +97,57 @@ fn render_time(which: &str, style: u32) -> String {
   }
 }
 
+// ---- calendar arithmetic of the oracle side (own code: proleptic Gregorian calendar, no leap seconds)
+fn days_from_civil(y: i64, m: i64, d: i64) -> i64 {
+  let y = if m <= 2 { y - 1 } else { y };
+  let era = if y >= 0 { y } else { y - 399 } / 400;
+  let yoe = y - era * 400;
+  let doy = (153 * (if m > 2 { m - 3 } else { m + 9 }) + 2) / 5 + d - 1;
+  let doe = yoe * 365 + yoe / 4 - yoe / 100 + doy;
+  era * 146097 + doe - 719468
+}
+fn unix_from_civil(y: i64, mo: i64, d: i64, h: i64, mi: i64, sec: i64) -> i64 {
+  days_from_civil(y, mo, d) * 86400 + h * 3600 + mi * 60 + sec
+}
+/// "CCYY-MM-DDThh:mm:ss" of the instant `unix` read on a UTC clock
+fn civil_digits(unix: i64) -> String {
+  let days = unix.div_euclid(86400);
+  let sod = unix.rem_euclid(86400);
+  let z = days + 719468;
+  let era = if z >= 0 { z } else { z - 146096 } / 146097;
+  let doe = z - era * 146097;
+  let yoe = (doe - doe / 1460 + doe / 36524 - doe / 146096) / 365;
+  let doy = doe - (365 * yoe + yoe / 4 - yoe / 100);
+  let mp = (5 * doy + 2) / 153;
+  let d = doy - (153 * mp + 2) / 5 + 1;
+  let m = if mp < 10 { mp + 3 } else { mp - 9 };
+  let y = yoe + era * 400 + if m <= 2 { 1 } else { 0 };
+  format!("{y:04}-{m:02}-{d:02}T{:02}:{:02}:{:02}", sod / 3600, sod % 3600 / 60, sod % 60)
+}
+fn wall_clock_unix() -> i64 {
+  std::time::SystemTime::now().duration_since(std::time::UNIX_EPOCH).map(|d| d.as_secs() as i64).unwrap_or(0)
+}
+/// fixed reference instants (digits that cross a day / month / year / leap-day border once a zone is applied)
+fn fixed_refs() -> [i64; 3] {
+  [unix_from_civil(2031, 12, 31, 23, 30, 0), unix_from_civil(2028, 2, 29, 0, 20, 0), unix_from_civil(2040, 6, 15, 12, 0, 0)]
+}
+/// a validity bound as the abstract document writes it: wall-clock digits `d` (seconds relative to the reference
+/// instant) + zone designator: none | Z | (+|-)hh:mm
+fn render_bound(b: &Value, ref_unix: i64) -> String {
+  let digits = civil_digits(ref_unix + b["d"].as_i64().unwrap_or(0));
+  match s(&b["zk"]) {
+    "none" => digits,
+    "Z" => format!("{digits}Z"),
+    _ => {
+      let zm = b["zm"].as_i64().unwrap_or(0);
+      format!("{digits}{}{:02}:{:02}", if zm < 0 { '-' } else { '+' }, zm.abs() / 60, zm.abs() % 60)
+    }
+  }
+}
+fn has_windows(doc: &Value) -> bool {
+  arr(&doc["grants"]).iter().any(|g| s(&g["val"]) == "window")
+}
+
 fn render_criteria(tag: &str, crits: &[Value], out: &mut String) {
   for c in crits {
     out.push_str(&format!("        <{tag}>\n          <topics>\n"));
@@ -125,19 +181,23 @@ fn render_domains(doms: &[Value], out: &mut String) {
 }
 
 pub fn render_permissions(doc: &Value, style: u32) -> String {
+  render_permissions_at(doc, style, 0)
+}
+
+/// `ref_unix`: the reference instant of grants with val = "window" (their bounds are written relative to it)
+pub fn render_permissions_at(doc: &Value, style: u32, ref_unix: i64) -> String {
   let mut o = String::new();
   o.push_str("<?xml version=\"1.0\" encoding=\"UTF-8\"?>\n<dds xmlns:xsi=\"http://www.w3.org/2001/XMLSchema-instance\" xsi:noNamespaceSchemaLocation=\"http://www.omg.org/spec/DDS-Security/20170901/omg_shared_ca_permissions.xsd\">\n  <permissions>\n");
   for (i, g) in arr(&doc["grants"]).iter().enumerate() {
     o.push_str(&format!("    <grant name=\"g{i}\">\n      <subject_name>{}</subject_name>\n", subject_dn(s(&g["subj"]))));
     let (nb, na) = match s(&g["val"]) {
-      "valid" => ("past1", "fut2"),
-      "expired" => ("past1", "past2"),
-      _ => ("fut1", "fut2"),
+      "window" => (render_bound(&g["nb"], ref_unix), render_bound(&g["na"], ref_unix)),
+      "valid" => (render_time("past1", style), render_time("fut2", style)),
+      "expired" => (render_time("past1", style), render_time("past2", style)),
+      _ => (render_time("fut1", style), render_time("fut2", style)),
     };
     o.push_str(&format!(
-      "      <validity>\n        <not_before>{}</not_before>\n        <not_after>{}</not_after>\n      </validity>\n",
-      render_time(nb, style),
-      render_time(na, style)
+      "      <validity>\n        <not_before>{nb}</not_before>\n        <not_after>{na}</not_after>\n      </validity>\n"
     ));
     for r in arr(&g["rules"]) {
       let tag = if r["allow"].as_bool().unwrap_or(false) { "allow_rule" } else { "deny_rule" };
@@ -226,8 +286,14 @@ fn log_checks(rig: &AccessRig, handle: Option<u32>, q: &Value, ev: &mut Vec<Valu
 }
 
 fn run_dec(k: usize, sp: &ARunSpec, ev: &mut Vec<Value>) {
-  ev.push(json!({"ev":"Reset","run":k,"kind":"dec","doc":sp.doc,"subj":sp.subj}));
-  let pxml = render_permissions(&sp.doc, sp.style);
+  // validity windows are written relative to a reference instant: the wall clock (the public entrances ask the real
+  // clock; every bound of the alphabet is >= 15 minutes away from the reference) or a fixed date (then the clock of
+  // the run is years away from every window; a fixed date that has come within 30 days of the clock is not used)
+  let clock = wall_clock_unix();
+  let ref_unix = if sp.tref <= 1 || (sp.tref - clock).abs() < 30 * 86400 { clock } else { sp.tref };
+  ev.push(json!({"ev":"Reset","run":k,"kind":"dec","doc":sp.doc,"subj":sp.subj,"now":clock - ref_unix,
+                 "ref":if ref_unix == clock { "clock".to_string() } else { format!("{}Z", civil_digits(ref_unix)) }}));
+  let pxml = render_permissions_at(&sp.doc, sp.style, ref_unix);
   let gxml = render_governance(&sp.doc, sp.style / 3);
   let mut rig = AccessRig::new();
   let inst = rig.install_unsigned(subject_dn(&sp.subj), &pxml, &gxml, 0);
@@ -242,6 +308,16 @@ fn run_dec(k: usize, sp: &ARunSpec, ev: &mut Vec<Value>) {
     }
   };
   log_checks(&rig, handle, &sp.q, ev);
+  // the real find_grant at explicit instants (relative to the reference)
+  if let Some(h) = handle {
+    for t in arr(&sp.q["times"]) {
+      let t = t.as_i64().unwrap_or(0);
+      match rig.has_grant_at(h, ref_unix + t) {
+        Ok(g) => ev.push(json!({"ev":"GrantAt","t":t,"ok":true,"has_grant":g,"raw":""})),
+        Err(e) => ev.push(json!({"ev":"GrantAt","t":t,"ok":e == "panic","has_grant":false,"raw":e})),
+      }
+    }
+  }
 }
 
 // ------------------------------------------------------------------ signature clause
@@ -330,7 +406,7 @@ fn run_sig(k: usize, sp: &ARunSpec, ev: &mut Vec<Value>) {
   let fx = Fix { dir: sp.fixdir.clone() };
   let meta: Value = serde_json::from_slice(&fx.read("fixtures.json")).expect("fixtures.json");
   let doc = json!({"grants": meta[&sp.perm]["grants"], "gov": meta[&sp.gov]["gov"]});
-  ev.push(json!({"ev":"Reset","run":k,"kind":"sig","doc":doc,"subj":"S1","perm":sp.perm,"gov":sp.gov,"target":sp.target}));
+  ev.push(json!({"ev":"Reset","run":k,"kind":"sig","doc":doc,"subj":"S1","now":0,"perm":sp.perm,"gov":sp.gov,"target":sp.target}));
   let own_ca = fx.read("permissions_ca.cert.pem");
   let foreign_ca = fx.read("foreign_ca.cert.pem");
   let perm_blob = fx.read(&format!("{}.p7s", sp.perm));
@@ -457,6 +533,7 @@ fn blank_spec(kind: &str) -> ARunSpec {
     ca: String::new(),
     other: String::new(),
     fmode: Value::Null,
+    tref: 0,
   }
 }
 
@@ -740,6 +817,24 @@ fn split_frame(blob: &[u8]) -> Frame {
   }
 }
 
+/// the edited content E, variant 0: the document with every default (permissions) / every access control switch
+/// (governance) inverted - a loadable document that says the opposite
+fn inverted_document(doc: &Value) -> (Vec<u8>, String) {
+  let mut d = doc.clone();
+  if d.get("grants").is_some() {
+    for g in d["grants"].as_array_mut().unwrap() {
+      g["def"] = json!(if s(&g["def"]) == "ALLOW" { "DENY" } else { "ALLOW" });
+    }
+    (render_permissions(&d, 0).into_bytes(), "defaults_inverted".into())
+  } else {
+    for r in d["gov"].as_array_mut().unwrap() {
+      r["read"] = json!(!r["read"].as_bool().unwrap_or(true));
+      r["write"] = json!(!r["write"].as_bool().unwrap_or(true));
+    }
+    (render_governance(&d, 0).into_bytes(), "switches_inverted".into())
+  }
+}
+
 fn fixture(dir: &str, name: &str) -> std::sync::Arc<Vec<u8>> {
   use std::sync::{Arc, Mutex, OnceLock};
   static CACHE: OnceLock<Mutex<HashMap<String, Arc<Vec<u8>>>>> = OnceLock::new();
@@ -781,6 +876,15 @@ fn materials(dir: &str, t: &str, o: &str) -> Materials {
       ders.insert((d.to_string(), by.to_string()), tree);
     }
   }
+  // the edited content E (variant 0), signed once by the participant's own identity key (no CA ever signed it)
+  let e_fix = fixture(dir, &format!("{t}.E.identity.p7s"));
+  {
+    let f = split_frame(&e_fix);
+    let mut p = 0;
+    let tree = der_parse(&f.der, &mut p);
+    assert!(p == f.der.len(), "fixture shape: trailing bytes after SignedData");
+    ders.insert(("E".to_string(), "identity".to_string()), tree);
+  }
   let m = Materials {
     perm_kind,
     frame,
@@ -795,9 +899,33 @@ fn materials(dir: &str, t: &str, o: &str) -> Materials {
   let mut tree = m.ders[&("T".to_string(), "CA".to_string())].clone();
   assert!(m.build(&tree, &canonical(&m.xml_t), &m.frame.pre) == *genuine, "forge: genuine container not reproduced");
   assert!(signed_attr(&mut tree, &OID_ATTR_MD).as_slice() == sha256(&canonical(&m.xml_t)), "forge: digest of the canonical content");
-  let rendered = if perm_kind { render_permissions(&m.doc_t, 0) } else { render_governance(&m.doc_t, 0) };
+  let rendered = if m.perm_kind { render_permissions(&m.doc_t, 0) } else { render_governance(&m.doc_t, 0) };
   assert!(rendered.as_bytes() == m.xml_t.as_slice(), "forge: fixture XML is not the rendering of fixtures.json");
+  let mut etree = m.ders[&("E".to_string(), "identity".to_string())].clone();
+  assert!(
+    signed_attr(&mut etree, &OID_ATTR_MD).as_slice() == sha256(&canonical(&m.edited_xml(0).0)),
+    "forge: the identity-signed fixture of the edited content does not fit the rendering of the edited document"
+  );
   m
+}
+
+/// appends an (unknown) unsigned attribute carrying n octets to a SignerInfo: changes its place in the DER order of
+/// the signerInfos SET without touching anything the signature covers
+fn pad_signer_info(el: &mut Der, n: usize) {
+  let attr = Der::Cons(0x30, vec![Der::Prim(0x06, vec![0x2a, 0x03, 0x05]), Der::Cons(0x31, vec![Der::Prim(0x04, vec![0x55; n])])]);
+  let c = ch(el);
+  if let Some(last) = c.last_mut() {
+    if tag(last) == 0xa1 {
+      ch(last).push(attr);
+      return;
+    }
+  }
+  c.push(Der::Cons(0xa1, vec![attr]));
+}
+fn encoded(d: &Der) -> Vec<u8> {
+  let mut v = vec![];
+  der_encode(d, &mut v);
+  v
 }
 impl Materials {
   fn build(&self, tree: &Der, content: &[u8], pre: &str) -> Vec<u8> {
@@ -838,19 +966,7 @@ impl Materials {
   /// control switch (governance) inverted - still a loadable document; others: one letter of the XML changes case
   fn edited_xml(&self, variant: usize) -> (Vec<u8>, String) {
     if variant == 0 {
-      let mut d = self.doc_t.clone();
-      if self.perm_kind {
-        for g in d["grants"].as_array_mut().unwrap() {
-          g["def"] = json!(if s(&g["def"]) == "ALLOW" { "DENY" } else { "ALLOW" });
-        }
-        (render_permissions(&d, 0).into_bytes(), "defaults_inverted".into())
-      } else {
-        for r in d["gov"].as_array_mut().unwrap() {
-          r["read"] = json!(!r["read"].as_bool().unwrap_or(true));
-          r["write"] = json!(!r["write"].as_bool().unwrap_or(true));
-        }
-        (render_governance(&d, 0).into_bytes(), "switches_inverted".into())
-      }
+      inverted_document(&self.doc_t)
     } else {
       let mut x = self.xml_t.clone();
       let mut p = (variant.wrapping_mul(2654435761)) % x.len();
@@ -882,8 +998,13 @@ impl Materials {
     let (by, of) = (s(&b["by"]).to_string(), s(&b["of"]).to_string());
     let mut desc = serde_json::Map::new();
     let mut tree = self.ders[&(of.clone(), by.clone())].clone();
+    let cos: Vec<Value> = arr(&b["co"]).to_vec();
+    // a signature part made for the edited content exists for variant 0 of E only
+    let e_material = of == "E" || cos.iter().any(|c| s(&c["of"]) == "E");
+    let of_mat = if of == "E" { "T".to_string() } else { of.clone() }; // another signer's certificate / identifier: any document
     // transported content (+ digest of the edited content, should the messageDigest attribute be rewritten to it)
     let ev = pick("content_E", N_E_VARIANTS);
+    let ev = if e_material { 0 } else { ev };
     let (exml, edesc) = self.edited_xml(ev);
     let content = match s(&b["content"]) {
       "E" => {
@@ -976,7 +1097,7 @@ impl Materials {
             }
             "foreign" => {
               let other_signer = if by == "foreign" { "CA" } else { "foreign" };
-              let mut o = self.ders[&(of.clone(), other_signer.to_string())].clone();
+              let mut o = self.ders[&(of_mat.clone(), other_signer.to_string())].clone();
               let osd = sd(&mut o);
               let oi = osd.iter().position(|x| tag(x) == 0xa0).expect("fixture shape: certificates");
               sdc[idx] = osd[oi].clone();
@@ -994,7 +1115,7 @@ impl Materials {
         "si_sid" => {
           if class == "foreign" {
             let other_signer = if by == "foreign" { "CA" } else { "foreign" };
-            let mut o = self.ders[&(of.clone(), other_signer.to_string())].clone();
+            let mut o = self.ders[&(of_mat.clone(), other_signer.to_string())].clone();
             let sid = si(&mut o)[1].clone();
             si(&mut tree)[1] = sid;
             format!("signer identifier of {other_signer}")
@@ -1043,6 +1164,84 @@ impl Materials {
       };
       desc.insert(f.into(), json!(d));
     }
+    // co-SignerInfos: further members of the signerInfos SET, taken from the genuine material (seeded runs: also with
+    // rewritten signed attributes / damaged signature value).  signerInfos is a SET OF: both transport orders and both
+    // DER orders (the shorter encoding sorts first; an unsigned attribute of padding turns the order round) are realised.
+    if !cos.is_empty() {
+      let v = pick("co_var", 4);
+      let (before, flip) = (v % 2 == 1, v / 2 == 1);
+      let mut els: Vec<Der> = vec![];
+      let mut cdesc = vec![];
+      for c in &cos {
+        let (cby, cof) = (s(&c["by"]).to_string(), s(&c["of"]).to_string());
+        let mut ctree = self.ders[&(cof.clone(), cby.clone())].clone();
+        let cmd = s(&c["md"]);
+        if cmd != cof {
+          let v = match cmd {
+            "E" => sha256(&canonical(&exml)).to_vec(),
+            "junk" => {
+              let mut v = signed_attr(&mut ctree, &OID_ATTR_MD).clone();
+              v[0] ^= 0x01;
+              v
+            }
+            d => sha256(&canonical(self.xml_of(d))).to_vec(),
+          };
+          *signed_attr(&mut ctree, &OID_ATTR_MD) = v;
+        }
+        if s(&c["rest"]) != "orig" {
+          let t = signed_attr(&mut ctree, &OID_ATTR_TIME);
+          let i = t.len() - 2;
+          t[i] = if t[i] == b'0' { b'1' } else { b'0' };
+        }
+        let csig = s(&c["sig"]);
+        if csig != cof {
+          if csig == "junk" {
+            let v = prim(&mut si(&mut ctree)[5]);
+            let n = v.len();
+            v[n / 2] ^= 0x01;
+          } else {
+            let mut other = self.ders[&(csig.to_string(), cby.clone())].clone();
+            let v = prim(&mut si(&mut other)[5]).clone();
+            *prim(&mut si(&mut ctree)[5]) = v;
+          }
+        }
+        els.push(Der::Cons(0x30, si(&mut ctree).clone()));
+        // a co-signer brings his certificate along
+        if cby != by {
+          let csd = sd(&mut ctree);
+          let ccerts: Vec<Der> = csd.iter_mut().find(|x| tag(x) == 0xa0).map(|x| ch(x).clone()).unwrap_or_default();
+          if let Some(own) = sd(&mut tree).iter_mut().find(|x| tag(x) == 0xa0) {
+            for cc in ccerts {
+              if !ch(own).contains(&cc) {
+                ch(own).push(cc);
+              }
+            }
+          }
+        }
+        cdesc.push(format!("{cby}/{cof} md={cmd} rest={} sig={csig}", s(&c["rest"])));
+      }
+      let sdc = sd(&mut tree);
+      let last = sdc.len() - 1;
+      let set = ch(&mut sdc[last]);
+      if flip {
+        // pad whichever of (SignerInfo the container was built around, first co-SignerInfo) sorts first
+        let (ep, ec) = (encoded(&set[0]), encoded(&els[0]));
+        let diff = ep.len().abs_diff(ec.len()) + 16;
+        if (ep.len(), &ep) < (ec.len(), &ec) {
+          pad_signer_info(&mut set[0], diff);
+        } else {
+          pad_signer_info(&mut els[0], diff);
+        }
+      }
+      if before {
+        for (i, e) in els.into_iter().enumerate() {
+          set.insert(i, e);
+        }
+      } else {
+        set.extend(els);
+      }
+      desc.insert("co".into(), json!({"signer_infos":cdesc, "transported":if before {"before"} else {"after"}, "der_order_turned":flip}));
+    }
     let mut der = vec![];
     der_encode(&tree, &mut der);
     for (pos, x) in noise {
@@ -1063,7 +1262,7 @@ impl Materials {
     if s(&b["md"]) == "junk" || s(&b["rest"]) != "orig" {
       n = n.max(3);
     }
-    if s(&b["sig"]) == "junk" {
+    if s(&b["sig"]) == "junk" || !arr(&b["co"]).is_empty() {
       n = n.max(4);
     }
     for f in UFIELDS {
@@ -1094,12 +1293,25 @@ fn run_forge(k: usize, sp: &ARunSpec, ev: &mut Vec<Value>) {
   // the document whose statements hold if this container is accepted: the one its signature VALUE was made for
   // (a damaged value vouches for nothing; any acceptance is then a violation whatever the document)
   let of = if s(&b["sig"]) == "junk" { s(&b["of"]) } else { s(&b["sig"]) };
+  // a container with several SignerInfos: the statements of the genuine document it transports (T / O) hold if it is
+  // accepted; an edited content is judged against the document the first signature value of the configured CA was made for
+  let of = if arr(&b["co"]).is_empty() {
+    of
+  } else if matches!(s(&b["content"]), "T" | "O") {
+    s(&b["content"])
+  } else {
+    std::iter::once(b)
+      .chain(arr(&b["co"]).iter())
+      .find(|x| s(&x["by"]) == sp.ca && matches!(s(&x["sig"]), "T" | "O"))
+      .map(|x| s(&x["sig"]))
+      .unwrap_or("T")
+  };
   let doc = if gov_target {
     json!({"grants": meta[&sp.perm]["grants"], "gov": m.doc_of(of)["gov"]})
   } else {
     json!({"grants": m.doc_of(of)["grants"], "gov": meta[&sp.gov]["gov"]})
   };
-  ev.push(json!({"ev":"Reset","run":k,"kind":"forge","doc":doc,"subj":"S1","perm":sp.perm,"gov":sp.gov,"target":sp.target,"other":sp.other}));
+  ev.push(json!({"ev":"Reset","run":k,"kind":"forge","doc":doc,"subj":"S1","now":0,"perm":sp.perm,"gov":sp.gov,"target":sp.target,"other":sp.other}));
   let (ca_file, sfx) = if sp.ca == "foreign" { ("foreign_ca.cert.pem", ".foreign") } else { ("permissions_ca.cert.pem", "") };
   let ca_pem = fixture(dir, ca_file);
   // the document that is not under test is a genuine one of the configured CA
@@ -1172,7 +1384,7 @@ fn run_forge(k: usize, sp: &ARunSpec, ev: &mut Vec<Value>) {
       let mut r = StdRng::seed_from_u64(sp.fmode["seed"].as_u64().unwrap_or(0));
       for _ in 0..n {
         // byte noise is never combined with the one-bit edits of the alphabet (it could undo them)
-        let bit_level = s(&b["md"]) == "junk" || s(&b["rest"]) != "orig" || s(&b["sig"]) == "junk";
+        let bit_level = std::iter::once(b).chain(arr(&b["co"]).iter()).any(|x| s(&x["md"]) == "junk" || s(&x["rest"]) != "orig" || s(&x["sig"]) == "junk");
         let nn = if bit_level { 0 } else { [0usize, 0, 1, 1, 2, 3][r.gen_range(0..6)] };
         let noise: Vec<(usize, u8)> = (0..nn)
           .map(|_| (if r.gen_bool(0.8) { r.gen_range(0..960) } else { MIME_BASE + r.gen_range(0..m.mime_len()) }, 1u8 << r.gen_range(0..8)))
@@ -1184,7 +1396,8 @@ fn run_forge(k: usize, sp: &ARunSpec, ev: &mut Vec<Value>) {
     }
     _ => {
       for i in 0..m.n_variants(b) {
-        one(&mut |_, n| i % n, &[], ev);
+        // (the order variants of a co-signed container are not tied to the parity of the other choices)
+        one(&mut |f, n| if f == "co_var" { [0usize, 2, 3, 1][i % 4] % n } else { i % n }, &[], ev);
       }
     }
   }
@@ -1213,8 +1426,7 @@ fn forge_targets(meta: &Value, thorough: bool) -> Vec<(String, String, String, S
 
 /// seeded container beyond the model's bound: up to 5 cooperating edits (the same edit alphabet as ForgeEdit)
 fn rnd_container(r: &mut StdRng) -> (Value, String) {
-  let by = ["CA", "CA", "foreign", "identity"][r.gen_range(0..4)];
-  let of = ["T", "T", "O"][r.gen_range(0..3)];
+  let (by, of) = [("CA", "T"), ("CA", "T"), ("CA", "O"), ("foreign", "T"), ("foreign", "O"), ("identity", "T"), ("identity", "O"), ("identity", "E")][r.gen_range(0..8)];
   let mut un = serde_json::Map::new();
   for f in UFIELDS {
     un.insert(f.into(), json!("orig"));
@@ -1237,6 +1449,22 @@ fn rnd_container(r: &mut StdRng) -> (Value, String) {
     }
   }
   b["un"] = Value::Object(un);
+  // co-signed: up to two more SignerInfos from the genuine material, now and then with an edit of their own
+  let mut co = vec![];
+  if r.gen_bool(0.4) {
+    for _ in 0..r.gen_range(1..=2) {
+      let (cby, cof) = [("CA", "T"), ("CA", "T"), ("CA", "O"), ("foreign", "T"), ("foreign", "O"), ("identity", "T"), ("identity", "O"), ("identity", "E"), ("identity", "E")][r.gen_range(0..9)];
+      let mut c = json!({"by":cby,"of":cof,"md":cof,"rest":"orig","sig":cof});
+      match r.gen_range(0..8) {
+        0 => c["md"] = json!(["T", "O", "E", "junk"][r.gen_range(0..4)]),
+        1 => c["sig"] = json!("junk"),
+        2 => c["rest"] = json!("alt"),
+        _ => {}
+      }
+      co.push(c);
+    }
+  }
+  b["co"] = json!(co);
   let ca = if by == "foreign" && r.gen_bool(0.7) { "foreign" } else { "CA" };
   (b, ca.to_string())
 }
@@ -1294,11 +1522,33 @@ fn rnd_doc(r: &mut StdRng) -> Value {
     .map(|_| {
       let nr = r.gen_range(1..=3);
       let rules: Vec<Value> = (0..nr).map(|_| rnd_rule(r)).collect();
-      let val = ["valid", "valid", "valid", "expired", "future"][r.gen_range(0..5)];
-      json!({"subj": if r.gen_bool(0.7) {"S1"} else {"S2"},
+      let val = ["valid", "valid", "valid", "expired", "future", "window", "window", "window"][r.gen_range(0..8)];
+      let mut g = json!({"subj": if r.gen_bool(0.7) {"S1"} else {"S2"},
              "val": val,
              "def": if r.gen_bool(0.5) {"ALLOW"} else {"DENY"},
-             "rules": rules})
+             "rules": rules});
+      if val == "window" {
+        // bounds as instants: multiples of a quarter of an hour up to 20 h either side of the reference, never the
+        // reference itself; written in a random zone (-12:00 .. +14:00 in quarters of an hour) | Z | without designator
+        let mut at = [0i64; 2];
+        for a in at.iter_mut() {
+          *a = 900 * r.gen_range(1..=80) * if r.gen_bool(0.5) { 1 } else { -1 };
+        }
+        if at[0] > at[1] && r.gen_bool(0.9) {
+          at.swap(0, 1); // (now and then the window stays empty: not_after before not_before)
+        }
+        for (name, a) in [("nb", at[0]), ("na", at[1])] {
+          g[name] = match r.gen_range(0..4) {
+            0 => json!({"d": a, "zk": "none", "zm": 0}),
+            1 => json!({"d": a, "zk": "Z", "zm": 0}),
+            _ => {
+              let zm = 15 * r.gen_range(-48i64..=56);
+              json!({"d": a + 60 * zm, "zk": "off", "zm": zm})
+            }
+          };
+        }
+      }
+      g
     })
     .collect();
   let ngov = r.gen_range(1..=3); // the schema demands at least one topic rule
@@ -1321,9 +1571,34 @@ pub fn random_specs(seed: u64, runs: usize, events: usize, tier: &str, fixdir: &
       list.push(json!({"op":op,"dom":r.gen_range(0..6),"topic":pick(&mut r, &NAMES),"parts": if direct { json!(parts) } else { json!([]) }}));
     }
     let mut sp = blank("dec");
+    sp.q = json!({"list": list});
+    if has_windows(&doc) {
+      // explicit instants for the grant lookup: one second either side of every bound, the instants the digits of a
+      // bound name when its designator is dropped / applied the wrong way round, some others
+      let mut times: Vec<i64> = vec![0, -1, 1];
+      for g in arr(&doc["grants"]) {
+        for name in ["nb", "na"] {
+          if let Some(d) = g[name]["d"].as_i64() {
+            let off = if s(&g[name]["zk"]) == "off" { 60 * g[name]["zm"].as_i64().unwrap_or(0) } else { 0 };
+            let at = d - off;
+            times.extend([at - 1, at + 1, d - 1, d + 1, d + off - 1, d + off + 1]);
+            if name == "nb" {
+              times.push(at);
+            }
+          }
+        }
+      }
+      for _ in 0..6 {
+        times.push(900 * r.gen_range(-90i64..=90) + r.gen_range(-1i64..=1));
+      }
+      times.sort();
+      times.dedup();
+      sp.q["times"] = json!(times);
+      let refs = fixed_refs();
+      sp.tref = if r.gen_bool(0.6) { 1 } else { refs[r.gen_range(0..refs.len())] };
+    }
     sp.doc = doc;
     sp.subj = if r.gen_bool(0.8) { "S1".into() } else { "S2".into() };
-    sp.q = json!({"list": list});
     sp.style = r.gen_range(0..9);
     v.push(sp);
   }
@@ -1373,15 +1648,23 @@ pub fn random_specs(seed: u64, runs: usize, events: usize, tier: &str, fixdir: &
     // ---- forged containers beyond the bound of the model (strengthening round)
     let ftargets = forge_targets(&meta, thorough);
     let un_orig: serde_json::Map<String, Value> = UFIELDS.iter().map(|f| (f.to_string(), json!("orig"))).collect();
-    let base = |by: &str, content: &str, md: &str| json!({"content":content,"by":by,"of":"T","md":md,"rest":"orig","sig":"T","un":un_orig});
+    let base = |by: &str, content: &str, md: &str| json!({"content":content,"by":by,"of":"T","md":md,"rest":"orig","sig":"T","un":un_orig,"co":[]});
     // 1. an edited container x EVERY octet of its SignedData blob: (a) content nobody signed, (b) the same with
     //    the messageDigest attribute rewritten to it, (c) untouched content under the signature of another key
-    let sweeps = [base("CA", "E", "T"), base("CA", "E", "E"), base("foreign", "T", "T")];
+    let mut sweeps = vec![base("CA", "E", "T"), base("CA", "E", "E"), base("foreign", "T", "T")];
+    if thorough {
+      // (d) co-signed: the participant's own signature over the edited content + the CA's genuine SignerInfo of the target
+      let mut b = base("identity", "E", "E");
+      b["of"] = json!("E");
+      b["sig"] = json!("E");
+      b["co"] = json!([{"by":"CA","of":"T","md":"T","rest":"orig","sig":"T"}]);
+      sweeps.push(b);
+    }
     for (p, g, target, other) in &ftargets {
       for b in &sweeps {
         let chunk = 125;
         let mut from = 0;
-        while from < 1000 {
+        while from < if arr(&b["co"]).is_empty() { 1000 } else { 1750 } {
           let mut sp = blank("forge");
           sp.fixdir = fixdir.into();
           (sp.perm, sp.gov, sp.target, sp.other) = (p.clone(), g.clone(), target.clone(), other.clone());
@@ -1437,10 +1720,28 @@ pub fn main(mode: &str, opt: &HashMap<String, String>) -> i32 {
         // a container enumerated by TLC names no fixture: build it on every target of the tier
         let meta: Value = serde_json::from_slice(&std::fs::read(format!("{fd}/fixtures.json")).expect("fixtures.json")).expect("fixtures.json");
         let targets = forge_targets(&meta, opt.get("tier").map(|s| s.as_str()) == Some("thorough"));
+        let targets_co = forge_targets(&meta, false); // co-signed containers (4 realisations each): first permissions + first governance fixture
+        let thorough = opt.get("tier").map(|s| s.as_str()) == Some("thorough");
         let mut expanded = vec![];
+        let mut n_window_docs = 0usize;
         for sp in specs {
-          if sp.kind == "forge" && sp.perm.is_empty() {
-            for (p, g, target, other) in &targets {
+          if sp.kind == "dec" && sp.tref == 0 && sp.fixdir.is_empty() && has_windows(&sp.doc) {
+            // a document with validity windows enumerated by TLC names no reference instant: the wall clock (the
+            // public entrances decide at the real clock) and fixed dates (quick: one, thorough: three)
+            let mut c = sp.clone();
+            c.tref = 1;
+            expanded.push(c);
+            n_window_docs += 1;
+            for (i, t) in fixed_refs().iter().enumerate() {
+              if thorough || i == n_window_docs % 3 {
+                let mut c = sp.clone();
+                c.tref = *t;
+                c.style = i as u32 + 1;
+                expanded.push(c);
+              }
+            }
+          } else if sp.kind == "forge" && sp.perm.is_empty() {
+            for (p, g, target, other) in if arr(&sp.blob["co"]).is_empty() { &targets } else { &targets_co } {
               let mut c = sp.clone();
               (c.perm, c.gov, c.target, c.other) = (p.clone(), g.clone(), target.clone(), other.clone());
               expanded.push(c);
@@ -1472,6 +1773,8 @@ pub fn main(mode: &str, opt: &HashMap<String, String>) -> i32 {
         let d = &meta[name];
         let xml = if d.get("grants").is_some() { render_permissions(d, 0) } else { render_governance(d, 0) };
         std::fs::write(format!("{out}/{name}.xml"), xml).unwrap();
+        // the edited content that the participant's identity key signed (<name>.E.identity.p7s)
+        std::fs::write(format!("{out}/{name}.E.xml"), inverted_document(d).0).unwrap();
       }
       0
     }
